@@ -53,6 +53,14 @@ def h_parse_sections(ctx):
     fi = find_function(q)
     lines = ctx.fresh('lines', SS)
     n = z3.Length(lines)
+    seen = {}
+    orig_assign0 = I.assign
+
+    def assign0(t, v, frm):
+        if isinstance(v, tuple) and len(v) == 2 and z3.is_expr(v[1]) and v[1].sort() == StrS and z3.is_expr(v[0]):
+            seen['line'] = v[1]           # (line number, line) bound by the loop over enumerate(lines, start=1)
+        return orig_assign0(t, v, frm)
+    I.assign = assign0
     orig_str_method = I.str_method
 
     def str_method(z, attr, args, node):
@@ -63,7 +71,7 @@ def h_parse_sections(ctx):
     for name in Is:
         def m_match(I_, a, k, nd, name=name):
             arg = to_z3(a[0], StrS)
-            cur = I_.frames[-1].env.get('line')
+            cur = seen.get('line')        # the line the loop is at (captured when the loop binds it, whatever the local is called)
             if z3.is_expr(cur):
                 # comment / blank / header lines are recognised on the line as written, property lines on its stripped text: indentation and
                 # trailing blanks cannot matter
